@@ -42,6 +42,9 @@ def probe(rng):
         if name == 'FSINGL':
             if isinstance(v, float) and v == v and not math.isinf(v):
                 v = struct.unpack('>f', struct.pack('>f', v))[0] if abs(v) < 3e38 else 1.0
+        if isinstance(v, float) and rng.random() < 0.2:
+            # the same value as a numpy scalar (float64 is a subclass of float, float32 is not): as it comes out of numpy code
+            return name, {'$npscalar': ['float64' if name == 'FDOUBL' or rng.random() < 0.5 else 'float32', v]}, ('float', float(v))
         return name, v, ('float', float(v))
     if k in ('IDENT', 'ASCII') and rng.random() < 0.12:
         # non-str values are converted with str(): 1, 1.0 and True are equal (and hash equal) but have different texts
@@ -64,6 +67,12 @@ def probe(rng):
     if k == 'DTIME':
         from .. import genmeta
         lit = genmeta.dtime(rng, allow_str=False)
+        if rng.random() < 0.08:
+            # a wall-clock time that occurs twice (the hour repeated when DST ends), first or second occurrence
+            zone, iso = rng.choice([('Europe/Oslo', '2021-10-31T02:30:00.000000'), ('America/New_York', '2021-11-07T01:15:30.250000'),
+                                    ('Europe/Oslo', '2003-10-26T02:00:00.000000')])
+            lit = {'$dt': iso, 'tz': zone, 'fold': rng.choice([0, 1])}
+            return 'DTIME', lit, ('dtime', lit)
         if rng.random() < 0.15:
             y = rng.choice([1899, 2156, 1800])
             lit = {'$dt': '%04d' % y + lit['$dt'][4:], 'tz': 0}
@@ -75,6 +84,11 @@ def probe(rng):
 
 def collider(rng, code, lit):
     """an equal-but-distinct key for the cache"""
+    if isinstance(lit, dict) and '$npscalar' in lit:
+        dt, x = lit['$npscalar']
+        if isinstance(x, float) and x == 0:
+            return rng.choice([{'$npscalar': [dt, -x]}, -x])          # the other zero, as a numpy scalar or a Python float
+        return x                                                      # the equal Python number
     if isinstance(lit, float) and lit == 0:
         return -lit
     if isinstance(lit, bool):
@@ -85,6 +99,8 @@ def collider(rng, code, lit):
         return float(lit)
     if isinstance(lit, float) and lit == lit and not math.isinf(lit) and abs(lit) < 2 ** 31 and lit == int(lit):
         return int(lit)
+    if isinstance(lit, dict) and '$dt' in lit and 'fold' in lit:
+        return dict(lit, fold=1 - lit['fold'])       # the other occurrence: compares and hashes equal, is another instant
     if isinstance(lit, dict) and '$dt' in lit and lit.get('tz') is not None and not isinstance(lit['tz'], str):
         d = _dt.datetime.fromisoformat(lit['$dt']) + _dt.timedelta(minutes=60 - lit['tz'])
         if 1901 < d.year < 2150:
